@@ -99,6 +99,15 @@ Theorem C08_accumulator_bounded : forall Q a0 gs, 0 < Q -> a0 <= Q ->
   (raised = false -> n = length gs /\ a <= Q).
 Proof. exact accumulator_bounded. Qed.
 
+(* ... and the whole call: the loop, then the result check of the call protocol on the value actually
+   returned (for toDict: FrozenDict(accumulator), which is larger than the accumulator).  If the call
+   returns, every state of the accumulator AND the returned value fit the quota. *)
+Theorem C08_accumulator_call_fits : forall Q a0 gs ret n, 0 < Q -> a0 <= Q ->
+  acc_call Q a0 gs ret = (false, n) ->
+  n = length gs /\ a0 + zsum gs <= Q /\ ret <= Q /\
+  (forall j, (j <= length gs)%nat -> a0 + zsum (firstn j gs) <= Q).
+Proof. exact accumulator_call_fits. Qed.
+
 (* the estimate of `x * c` (strings; sequences after the repair of F6) refuses whenever the
    product would exceed the quota - for every size function obeying the linear law.
    sz is the operand's own size (>= the law: lists over-allocate, strings may cache UTF-8) *)
@@ -218,6 +227,7 @@ Print Assumptions C08_no_over_quota_value_passed_on.
 Print Assumptions C08_statement_result_fits.
 Print Assumptions C08_quota_off_identity.
 Print Assumptions C08_accumulator_bounded.
+Print Assumptions C08_accumulator_call_fits.
 Print Assumptions C08_repetition_refuses_first.
 Print Assumptions C08_repetition_refuses_first_here.
 Print Assumptions C08_repetition_never_over_quota.
